@@ -316,6 +316,56 @@ var deepGroupTargets int
 // raggedPackedRuns: for every repeated fixed-width field, a packed run whose length is not a multiple of the
 // element width, alone and followed by further records (so that a bound check against the whole input instead of
 // the run does not notice), into an empty and into a non-empty list.
+// backwardLengthPass: for every field that accepts length-delimited records, one or two well-formed records of the
+// field followed back to back by a record of the same field whose length is NEGATIVE as an int64 (10-byte varint)
+// and equals minus the distance back to every earlier byte of the stream (so in particular to the start of each
+// earlier record, of the key and of the length of the record itself). A decoder that looks ahead, pre-counts or
+// re-scans with `index += length` walks backwards onto bytes it has already seen: it must reject (as the unchanged
+// code does) and must return. Each case runs under the unmarshal watchdog.
+func backwardLengthPass(out *Out, t *Target) {
+	for _, f := range t.S.Msgs[0].Fields {
+		ld := f.IsMsg || f.Shape == vschema.Map || f.Kind == vschema.String || f.Kind == vschema.Bytes || (f.Shape == vschema.Repeated)
+		if !ld {
+			continue
+		}
+		payloads := [][]byte{{}}
+		if !f.IsMsg && f.Shape != vschema.Map && (f.Kind == vschema.String || f.Kind == vschema.Bytes) {
+			payloads = append(payloads, []byte("ab"))
+		}
+		for _, pl := range payloads {
+			for _, nrec := range []int{1, 2} {
+				var prefix []byte
+				for i := 0; i < nrec; i++ {
+					prefix = protowire.AppendTag(prefix, protowire.Number(f.Num), protowire.BytesType)
+					prefix = protowire.AppendVarint(prefix, uint64(len(pl)))
+					prefix = append(prefix, pl...)
+				}
+				tag := protowire.AppendTag(nil, protowire.Number(f.Num), protowire.BytesType)
+				for k := 1; k <= len(prefix)+len(tag)+12; k++ {
+					bs := append(append([]byte{}, prefix...), tag...)
+					bs = protowire.AppendVarint(bs, uint64(-int64(k)))
+					for _, tail := range []int{0, 3} {
+						in := append(append([]byte{}, bs...), make([]byte, tail)...)
+						msg := t.B.ToMessage(0, vval.Empty(t.S, 0))
+						replay := fmt.Sprintf("%s\ndec %s 0 - x%x %s\n# field %d: %d well-formed record(s), then a record with length -%d", t.S.Line(), t.S.ID, in, vval.Empty(t.S, 0).String(), f.Num, nrec, k)
+						var err error
+						out.Watch("C06", "unmarshal-hang", "proto.Unmarshal", replay, 60*time.Second)
+						p, pm := guard(func() { err = proto.Unmarshal(in, msg) })
+						out.Unwatch()
+						out.Case(fmt.Sprintf("backlen:%s:%d:%d:%d:%d:%d", t.Full, f.Num, len(pl), nrec, k, tail), true)
+						out.Count("backward_length_cases")
+						if p {
+							out.Violate("C06", "unmarshal-panic_backward-length", "panic on a record with a negative length: "+firstLine(pm), replay)
+						} else if err == nil {
+							out.Violate("C06", "accepts-negative-length", "a record with a negative length was accepted", replay)
+						}
+					}
+				}
+			}
+		}
+	}
+}
+
 func raggedPackedRuns(out *Out, t *Target) {
 	for _, f := range t.S.Msgs[0].Fields {
 		if f.IsMsg || f.Shape != vschema.Repeated {
@@ -374,6 +424,7 @@ func raggedPackedRuns(out *Out, t *Target) {
 func deepAndBig(out *Out, t *Target, r *vschema.Rand, tier string) {
 	smallLimitWalks(out, t, r, tier)
 	raggedPackedRuns(out, t)
+	backwardLengthPass(out, t)
 	// a cycle of singular / repeated / oneof message fields from the root back to the root
 	path := nestPath(t.S)
 	if len(path) > 0 {
